@@ -28,6 +28,15 @@ type ctx struct {
 	// for one path of a family is not reported again for the derived paths
 	// (rawdb and p2p sit on top of the proto codecs).
 	seen map[string]string
+	// retained: per (type, path) the byte slice an earlier encode returned and a private copy of its
+	// content at that time. Produced bytes must stay that object's encoding for as long as the caller
+	// keeps them: a later encode of another object must not rewrite them (shared / pooled buffers).
+	retained map[string][]retainedEnc
+}
+
+type retainedEnc struct {
+	got, want []byte
+	desc      any
 }
 
 func family(path string) string {
@@ -210,6 +219,31 @@ func run[T any](c *ctx, cd codec[T], x T) (decoded T, okDecoded bool) {
 	}
 	key := mon.Hex(crypto.Keccak256(b1)[:8])
 	defer c.m.Eval(class, key)
+
+	// encodings handed out earlier for OTHER objects of this (type, path) must still read the same
+	if c.retained == nil {
+		c.retained = map[string][]retainedEnc{}
+	}
+	for _, r := range c.retained[class] {
+		if !bytes.Equal(r.got, r.want) {
+			c.report("encoding-rewritten-later", cd.typ, cd.path, "retained-bytes", fmt.Sprintf("the bytes returned by an earlier encode (%d bytes) changed after later encodes of other objects (first difference at %d): the returned slice aliases shared memory", len(r.want), firstDiff(r.got, r.want)),
+				wit(map[string]any{"earlier_object": r.desc, "earlier_encoding": capHex(r.want), "earlier_encoding_now": capHex(r.got)}))
+			c.retained[class] = nil
+			break
+		}
+	}
+	c.m.Eval("retained-encodings-still-valid:"+cd.path, "")
+	{
+		var d any
+		if cd.desc != nil {
+			guard(func() { d = cd.desc(x) })
+		}
+		rs := append(c.retained[class], retainedEnc{got: b1, want: append([]byte(nil), b1...), desc: d})
+		if len(rs) > 8 {
+			rs = rs[len(rs)-8:]
+		}
+		c.retained[class] = rs
+	}
 
 	// determinism: 3 encodings, and the encoding of the type's copy
 	var dc dif
